@@ -1,6 +1,8 @@
 """C41 - testaments are deterministic and sensitive to every attested field."""
 
 import copy
+import json
+import zlib
 
 from hypothesis import strategies as st
 
@@ -18,7 +20,12 @@ RULE = ("history_spec (files, directories, symlinks, exec bits, odd names, "
         "merges, metadata) built through real working trees; the last revision "
         "is the subject; one generated single-field perturbation (file content "
         "/ path / exec bit, symlink target, message line, committer, timestamp, "
-        "timezone, parent list, revision property, added / deleted entry). "
+        "timezone, parent list, revision property, added / deleted entry, "
+        "letter case of a name, blanks in message and committer, last message "
+        "line, second line of a property value, a replaced ghost parent, the "
+        "root's file id, '\\' against '/' in a name and in a link target), "
+        "chosen by a hash of the spec among the kinds that apply, so that "
+        "every kind gets the same share. "
         "Non-trivial: the subject tree has >= 3 entries of >= 2 kinds. Distinct "
         "by case hash.")
 ASSUMPTIONS = [
@@ -28,6 +35,11 @@ ASSUMPTIONS = [
     "StrictTestament3 (which adds the root entry with its last-changed "
     "revision) is only compared between formats with the same root model",
     "the branch-nick revision property is supplied explicitly",
+    "the format documents integer timestamps and parents in lexicographical "
+    "order: sub-second timestamp changes and a mere reordering of parents are "
+    "not generated as perturbations",
+    "the tree root (file id) is attested by StrictTestament3 only; the "
+    "perturbed root id is set through the builder's own set_root_id call",
 ]
 LEVEL_TEXT = ("Sampled metamorphic exploration: determinism across formats / "
               "packing / fetch order and sensitivity to each attested field are "
@@ -112,6 +124,49 @@ def perturb(spec, pert):
                 op[5] = "café"
                 return s2, ALL
         return None, None
+    if k == "path-backslash":
+        # the file named "zz-bs\q" next to the directory "zz-bs" becomes the
+        # file "q" inside it: another path, another parent directory
+        for op in last["ops"]:
+            if op[0] == "add" and op[1] == "bs-file":
+                op[2], op[3] = "bs-dir", "q"
+                return s2, ALL
+        return None, None
+    if k == "target-backslash":
+        for op in last["ops"]:
+            if op[0] == "add" and op[1] == "bl-id":
+                op[5] = "t/u"
+                return s2, ALL
+        return None, None
+    if k == "path-case" and nonroot:
+        f = nonroot[pick % len(nonroot)]
+        name = m[f]["name"]
+        new = name.swapcase() if name.swapcase() != name else name + "X"
+        sibs = {e["name"] for x, e in m.items() if x != f and
+                e["parent"] == m[f]["parent"]}
+        if new in sibs:
+            new = name + "-Case"
+        last["ops"].append(["rename", f, m[f]["parent"], new])
+        return s2, ALL
+    if k == "root-id":
+        return s2, {"StrictTestament3"}
+    if k == "revprop-second-line":
+        if last["props"].get("multi") != "one\ntwo":
+            return None, None
+        last["props"] = dict(last["props"], multi="one\ntwo changed")
+        return s2, ALL
+    if k == "parent-ghost-replaced":
+        if "ghost-a" not in last.get("ghosts", []):
+            return None, None
+        last["ghosts"] = [x if x != "ghost-a" else "ghost-b"
+                          for x in last["ghosts"]]
+        return s2, ALL
+    if k == "message-last-line":
+        last["msg"] = last["msg"] + " changed"
+        return s2, ALL
+    if k == "committer-blank":
+        last["committer"] = last["committer"].replace(" <", "  <")
+        return s2, ALL
     if k == "committer":
         last["committer"] = "Per Turbed <p@turbed.example>"
         return s2, ALL
@@ -147,15 +202,66 @@ def perturb(spec, pert):
     return None, None
 
 
+def prepare(spec, kind):
+    """Give the subject revision what the perturbation kind needs."""
+    if kind not in ("target-nfd", "path-backslash", "target-backslash",
+                    "revprop-second-line", "parent-ghost-replaced",
+                    "message-last-line"):
+        return spec
+    spec = copy.deepcopy(spec)
+    last = spec["revs"][-1]
+    if kind == "target-nfd":
+        # a symlink with a non-ASCII (NFC) target
+        last["ops"].append(["add", "nfc-id", tm.ROOT_ID, "zz-nfc-link",
+                            "symlink", "café", False])
+    elif kind == "path-backslash":
+        # a directory and, next to it, a file whose *name* contains a backslash
+        last["ops"].append(["add", "bs-dir", tm.ROOT_ID, "zz-bs", "directory",
+                            None, False])
+        last["ops"].append(["add", "bs-file", tm.ROOT_ID, "zz-bs\\q", "file",
+                            "backslash\n", False])
+    elif kind == "target-backslash":
+        last["ops"].append(["add", "bl-id", tm.ROOT_ID, "zz-bs-link",
+                            "symlink", "t\\u", False])
+    elif kind == "revprop-second-line":
+        last["props"] = dict(last["props"], multi="one\ntwo")
+    elif kind == "parent-ghost-replaced":
+        last["ghosts"] = list(last.get("ghosts", [])) + ["ghost-a"]
+    elif kind == "message-last-line":
+        last["msg"] = last["msg"] + "\nlast line"
+    return spec
+
+
+def build_with_root_id(spec, path, fmt, root_id):
+    """history.build_wt with another file id for the tree root (the builder
+    addresses entries by path, so only the id of the root entry differs)."""
+    orig = bz.init_tree
+
+    def init_tree(p, format="2a"):
+        wt = orig(p, format)
+        real = wt.set_root_id
+        wt.set_root_id = lambda _fid: real(root_id)
+        return wt
+    bz.init_tree = init_tree
+    try:
+        return history.build_wt(spec, path, fmt, tags=False)
+    finally:
+        bz.init_tree = orig
+
+
+def short_text_of(name, rid, text):
+    """The documented short form: header, revision id, SHA-1 of the text."""
+    import hashlib
+    from breezy.bzr import testament as T
+    return "%srevision-id: %s\nsha1: %s\n" % (
+        getattr(T, name).short_header, rid,
+        hashlib.sha1(text.encode("utf-8")).hexdigest())
+
+
 def run(case, env):
     from breezy import controldir
-    spec = case["spec"]
-    if case["pert"]["kind"] == "target-nfd":
-        # give the subject revision a symlink with a non-ASCII (NFC) target
-        spec = copy.deepcopy(spec)
-        spec["revs"][-1]["ops"].append(
-            ["add", "nfc-id", tm.ROOT_ID, "zz-nfc-link", "symlink",
-             "café", False])
+    from breezy.bzr import testament as T
+    spec = prepare(case["spec"], case["pert"]["kind"])
     rid = spec["revs"][-1]["id"]
     d = env.newdir()
     built = {}
@@ -164,6 +270,21 @@ def run(case, env):
                                              tags=False)
         built[fmt] = wt.branch.repository
     t = {fmt: testaments(repo, bz.enc(rid)) for fmt, repo in built.items()}
+    # the short form is the digest of the long form; a testament made from the
+    # revision tree is the one made from the revision
+    for name in CLASSES:
+        text, short = t["2a"][name]
+        check(short == short_text_of(name, rid, text),
+              "C41/%s-short-text-is-not-the-digest-of-the-text" % name,
+              [short, text])
+    repo = built["2a"]
+    with repo.lock_read():
+        tree = repo.revision_tree(bz.enc(rid))
+        for name in CLASSES:
+            tt = getattr(T, name).from_revision_tree(tree)
+            check((tt.as_text().decode("utf-8"),
+                   tt.as_short_text().decode("utf-8")) == t["2a"][name],
+                  "C41/%s-from-revision-tree-differs" % name, None)
     # determinism across formats
     for name in ("Testament", "StrictTestament"):
         for fmt in ("pack-0.92", "1.9-rich-root"):
@@ -200,21 +321,36 @@ def run(case, env):
         else None
     if spec2 is None:
         return ok(label) if label else trivial()
-    wt2, _m, _i = history.build_wt(spec2, d + "/pert", "2a", tags=False)
+    pk = case["pert"]["kind"]
+    if pk == "root-id":
+        wt2, _m, _i = build_with_root_id(spec2, d + "/pert", "2a",
+                                         b"another-root-id")
+    else:
+        wt2, _m, _i = history.build_wt(spec2, d + "/pert", "2a", tags=False)
     t2 = testaments(wt2.branch.repository, bz.enc(rid))
-    for name in CLASSES:
-        if name in must:
-            check(t2[name][0] != t["2a"][name][0] and
-                  t2[name][1] != t["2a"][name][1],
-                  "C41/%s-insensitive-to-%s" % (name, case["pert"]["kind"]),
-                  [case["pert"], t["2a"][name][0]])
-    return ok((label + "+" if label else "") + "pert:" + case["pert"]["kind"])
+    same = [name for name in CLASSES if name in must and (
+        t2[name][0] == t["2a"][name][0] or t2[name][1] == t["2a"][name][1])]
+    if pk in COLLISIONS:
+        # open findings: "\" in a name / a link target is written as "/"
+        check(not same, COLLISIONS[pk], [same, t["2a"]["StrictTestament3"][0]])
+    for name in same:
+        check(False, "C41/%s-insensitive-to-%s" % (name, pk),
+              [case["pert"], t["2a"][name][0]])
+    return ok((label + "+" if label else "") + "pert:" + pk)
+
+
+COLLISIONS = {
+    "path-backslash": "C41/backslash-in-a-name-attested-as-path-separator",
+    "target-backslash": "C41/backslash-in-a-link-target-attested-as-slash",
+}
 
 
 PERTS = ["content", "exec", "path", "target", "delete", "add", "message",
          "message-line", "committer", "timestamp", "timezone", "revprop-add",
          "revprop-change", "parents", "message-trailing-blank",
-         "message-inner-blanks", "target-nfd"]
+         "message-inner-blanks", "target-nfd", "path-case", "root-id",
+         "revprop-second-line", "parent-ghost-replaced", "message-last-line",
+         "committer-blank", "path-backslash", "target-backslash"]
 
 
 @st.composite
@@ -226,14 +362,23 @@ def cases(draw, n_max=5):
     for r in spec["revs"]:
         r["msg"] = "\n".join(ln.rstrip() for ln in r["msg"].split("\n")
                              if ln.strip()) or "m"
+    # The perturbation is a function of the drawn spec (a hash picks among
+    # the kinds that apply to the subject tree): every kind gets the same
+    # share of the budget, which sampled_from() does not give.
+    m = history.models_of(spec)[spec["revs"][-1]["id"]]
+    have = {e["kind"] for f, e in m.items() if f != tm.ROOT_ID}
+    usable = [k for k in PERTS if not (
+        (k in ("content", "exec") and "file" not in have) or
+        (k == "target" and "symlink" not in have) or
+        (k in ("path", "delete", "path-case") and not have))]
+    h = zlib.crc32(json.dumps(spec, sort_keys=True).encode("utf-8"))
     return {"spec": spec,
-            "pert": {"kind": draw(st.sampled_from(PERTS)),
-                     "pick": draw(st.sampled_from(list(range(8))))},
-            "rot": draw(st.sampled_from(list(range(6))))}
+            "pert": {"kind": usable[h % len(usable)], "pick": (h >> 10) % 8},
+            "rot": (h >> 16) % 6}
 
 
 def kinds(tier):
     return [
         Kind("revision", run, strategy=cases(n_max=4 if tier == "quick" else 6),
-             examples={"quick": 200, "thorough": 6000}),
+             examples={"quick": 480, "thorough": 6000}),
     ]
